@@ -21,7 +21,7 @@ CLAIMED = {
  "C04": ("Theorems over the Gallina transcription of the sfnt writer (calcChecksum, getSearchRange, SFNTWriter.__setitem__/close/"
          "_calcMasterChecksum): checksum additivity over aligned blocks and padding invariance, search fields equal the OpenType definition "
          "(largest power of two <= numTables), every table lies 4-aligned/in bounds/non-overlapping with exactly its bytes where the directory "
-         "says (layout_sound), a file with one head table checksums to 0xB1B0AFBA (master_checksum), and the written file is read back by the reader model of C20: directory found, every table loaded with exactly the bytes written, head apart from checkSumAdjustment (written_file_reads_back, any number of tables; the hypothesis the proof first needed -- head at least 12 bytes -- exposed defect F23, repaired by a fix: commit). WOFF2's transformed glyf table: the "
+         "says (layout_sound), a file with one head table checksums to 0xB1B0AFBA (master_checksum), and the written file is read back by the reader model of C20: directory found, every table loaded with exactly the bytes written, head apart from checkSumAdjustment (written_file_reads_back, any number of tables; also: every table is compiled after the tables it depends on, for any declarations (compile_order_respects_dependencies), and the declarations regenerated from the source on every run contain every pair the derived fields need and have no cycle; the hypothesis the proof first needed -- head at least 12 bytes -- exposed defect F23, repaired by a fix: commit). WOFF2's transformed glyf table: the "
          "point triplets of a simple glyph (_encodeTriplets / _decodeTriplets, all 128 delta classes with their bit packing) are modelled; for "
          "every point list the encoder accepts, decoding returns exactly the points and leaves what follows in both streams untouched, and the "
          "encoder accepts a step exactly when both components fit 16 bits (bit operations reduced to arithmetic by small finite sweeps, the six "
